@@ -1058,9 +1058,10 @@ def c05l(ctx):
                   fail='the single-bundle shortcut is not keyed by the bundle file name: tiles of different levels/bundles are sent to one bundle')
 
         def ev(st, m=m):
-            if isinstance(st, (ast.Return, ast.Expr, ast.Assign)) and contains(st, lambda x: is_call(x, 'self._get_bundle')) and \
-                    contains(st, lambda x: isinstance(x, ast.Call) and isinstance(x.func, ast.Attribute) and x.func.attr == m and
-                             is_call(x.func.value, 'self._get_bundle')):
+            # closed form: the bundle may be held in a local before its bulk method is called
+            if isinstance(st, (ast.Return, ast.Expr, ast.Assign)) and st.value is not None and id(st) in g.node_of and \
+                    contains(cfm.expr(st.value, at=g.node_of[id(st)]), lambda x: isinstance(x, ast.Call) and isinstance(x.func, ast.Attribute) and
+                             x.func.attr == m and is_call(x.func.value, 'self._get_bundle')):
                 return 'shortcut'
             return None
         tab = ctx.rows(table(f.node.body, ret_kind, event_of=ev))
